@@ -25,6 +25,8 @@ import (
 type deepGen struct {
 	g *objGen
 	// per tree
+	keys    []string // the keys its paths may mention (the data trees grow with the square of their number)
+	multi   int      // units left in the current script for fragments that select several values
 	ops     int
 	fnest   int
 	leaves  map[string]int
@@ -50,6 +52,20 @@ func (d *deepGen) str() string {
 		}
 		return string(b)
 	}
+}
+
+func (d *deepGen) key() string { return lib.Pick(d.g.r, d.keys) }
+
+// take asks for cost units of the current script's allowance of multi-valued fragments. The evaluator tries
+// every combination of the values of all paths of a script (and the harness evaluates on trees that hold
+// every mentioned key at two levels), so a script gets 2 units: a wildcard, slice, union or filter costs 1, a
+// descent 2.
+func (d *deepGen) take(cost int) bool {
+	if d.multi < cost {
+		return false
+	}
+	d.multi -= cost
+	return true
 }
 
 func (d *deepGen) float() float64 {
@@ -119,25 +135,24 @@ func (d *deepGen) path(flevel int) ExprD {
 		x = append(x, fR())
 	}
 	n := g.r.Intn(4)
-	filters := 0
 	for i := 0; i < n; i++ {
 		switch k := g.r.Intn(20); {
-		case k < 6:
-			x = append(x, fC(d.str()))
-		case k < 8:
+		case k < 5:
+			x = append(x, fC(d.key()))
+		case k < 7:
 			x = append(x, fN(g.smallInt()))
-		case k < 10:
+		case k < 9 && d.take(1):
 			x = append(x, fW())
-		case k == 10:
+		case k == 9 && d.take(2):
 			switch g.r.Intn(3) {
 			case 0:
 				x = append(x, fD())
 			case 1:
-				x = append(x, fD(), fC(lib.Pick(g.r, tokenKeys)))
+				x = append(x, fD(), fC(d.key()))
 			default:
 				x = append(x, fD(), fW())
 			}
-		case k < 13:
+		case k < 12 && d.take(1):
 			m := 2 + g.r.Intn(3)
 			if g.risky() {
 				m = g.r.Intn(2)
@@ -147,25 +162,29 @@ func (d *deepGen) path(flevel int) ExprD {
 				if g.r.Bool() {
 					ms = append(ms, int64(g.smallInt()))
 				} else {
-					ms = append(ms, d.str())
+					ms = append(ms, d.key())
 				}
 			}
 			x = append(x, fU(ms...))
-		case k < 15:
+		case k < 14 && d.take(1):
 			var ns []int
 			for j := g.r.Intn(4); j > 0; j-- {
 				ns = append(ns, g.smallInt())
 			}
 			x = append(x, fS(ns...))
+		case k >= 14 && flevel < 2 && d.take(1):
+			if flevel+1 > d.fnest {
+				d.fnest = flevel + 1
+			}
+			saved := d.multi
+			d.multi = 2
+			x = append(x, fF(d.tree(1+g.r.Intn(2), flevel+1)))
+			d.multi = saved
 		default:
-			if flevel < 2 && filters < 2 {
-				filters++
-				if flevel+1 > d.fnest {
-					d.fnest = flevel + 1
-				}
-				x = append(x, fF(d.tree(1+g.r.Intn(2), flevel+1)))
+			if g.r.Intn(3) == 0 {
+				x = append(x, fN(g.smallInt()))
 			} else {
-				x = append(x, fC(d.str()))
+				x = append(x, fC(d.key()))
 			}
 		}
 	}
@@ -271,11 +290,16 @@ func bucket(n int, edges ...int) string {
 func streamDeep(emit func(Case), r *lib.Rng, n int) {
 	d := &deepGen{g: &objGen{r: r, dirty: 2}}
 	for i := 0; i < n; i++ {
-		d.g.dirty = 1
+		d.g.dirty = 0
 		if i%8 == 7 {
-			d.g.dirty = 12
+			d.g.dirty = 6
 		}
 		d.ops, d.fnest, d.leaves, d.opNames = 0, 0, map[string]int{}, map[string]int{}
+		d.multi = 2
+		d.keys = d.keys[:0]
+		for len(d.keys) < 4 {
+			d.keys = append(d.keys, d.str())
+		}
 		depth := 4 + i%3
 		e := d.tree(depth, 0)
 		if got := eqDepth(e); got != depth {
